@@ -20,6 +20,7 @@ EXPLANATION = (
     "vdneff, kL, L, N) - the parameters are only tested for truth: every incomplete specification has no constructing path and ends in "
     "ValueError, every complete one constructs without arithmetic on a parameter that was not given. Not decided: agreement with "
     "tanh^2/sinh^2 closed forms and solver tolerance (numerical integration).")
+EXPLANATION += (' Added after the audit wave: C16.1 a user apodisation is tested with `is not None`, never for truthiness (a callable object of length 0, np.poly1d([0.5]), is falsy and was ignored).')
 TRUSTED = ["scipy.integrate.solve_ivp integrates the given system", "conservation of |R|^2-|S|^2 for a system of that matrix shape (mathematics)", "C02.3 typestate"]
 
 REAL_NAMES = {"δ", "s", "k", "F", "z"}
@@ -42,6 +43,12 @@ def real_atom(a):
 def rule_ode(ctx):
     pkg = ctx.pkg
     fi = pkg.func("devices.FBG.<locals>.ode_system")
+    # "any apodisation (built-in or user callable)": whether a profile was given is a question of identity (`is not None`), not of
+    # truthiness - a callable OBJECT may be falsy (np.poly1d([0.5]) has length 0) and would be ignored: the grating computed as uniform
+    tests = [n.test for n in ast.walk(pkg.func("devices.FBG").node) if isinstance(n, (ast.If, ast.IfExp))]
+    falsy = [t for t in tests if (isinstance(t, ast.Name) and t.id == "apo_func") or (isinstance(t, ast.UnaryOp) and isinstance(t.op, ast.Not) and isinstance(t.operand, ast.Name) and t.operand.id == "apo_func")]
+    ctx.check("C16.1", not falsy, fi, falsy[0] if falsy else fi.node, "ode_system: profile present <=> `apo_func is not None`", "decided by identity",
+              "the apodisation profile is tested for truthiness: a user callable that is falsy (an object with __len__() == 0, e.g. a constant np.poly1d) is ignored and the reflectivity is that of the uniform grating")
     for apo in (False, True):
         it = Interp(pkg, assumptions={"apo_func": ("truth", True) if apo else None})     # no profile: the function is None (falsy)
         outs = it.run(fi)
